@@ -152,6 +152,9 @@ def compare_module(ctx, driver, label, schema, text):
 			'module_line': module_lines[index] if index < len(module_lines) else None})
 
 
+SIBLING_LEFTOVERS = ['__init__.py.tmp', '__init__.py.lock', '__init__.py.bak', '.__init__.py.swp', '__init__.py~', '__init__.tmp', '__init__.py.new', '__init__.py.part', '__pycache__/', 'tmp', '.lock']
+
+
 SEQUENCE_PROGRAM = r'''
 import json, os, sys
 from catparser.__main__ import main
@@ -303,6 +306,16 @@ def run(ctx):
 					outfile.write(stale_content(stale, shipped, other_module))
 				with open(os.path.join(output, 'stale.txt'), 'wt', encoding='utf8') as outfile:
 					outfile.write('stale')
+				# what an INTERRUPTED earlier run (or an editor, or a lock of some tool) may have left next to the module: scratch, lock and
+				# backup files under the module's name - the module must be written all the same
+				# (every second stale directory gets all of them, the others one each)
+				for sibling in (SIBLING_LEFTOVERS if 0 == index % 2 else [SIBLING_LEFTOVERS[(index // 2) % len(SIBLING_LEFTOVERS)]]):
+					if sibling.endswith('/'):
+						os.makedirs(os.path.join(output, sibling), exist_ok=True)
+					else:
+						with open(os.path.join(output, sibling), 'wb') as outfile:
+							outfile.write(stale_content(stale, shipped, other_module)[:len(shipped) // 2])
+					ctx.count(f'leftover-sibling:{sibling}')
 			quiet = 0 != index % 5  # every fifth configuration runs without --quiet: the console dump must not influence the module
 			proc = run_generator(network, seed, cwd, relative, output, quiet=quiet)
 			config = {'quiet': quiet, 'network': network, 'hash_seed': seed, 'cwd': os.path.relpath(cwd, REPO) if cwd.startswith(REPO) else '<scratch>', 'relative_paths': relative, 'stale_output': stale or None}
